@@ -25,6 +25,12 @@ CLAIMED = {
         text="Generator programs under random layouts with comments in every position, a catalogue of literal and comment forms, and every .ucg file in the repository are formatted by the real AstPrinter (the exact code path of `ucg fmt`); the formatted text must parse to the same tree (positions and field-name quoting ignored), carry the same comment texts in the same order as read by my own tokenizer, and be a fixed point where the property demands it; `ucg fmt` and `ucg fmt -w` must produce the same bytes.",
         note="Trusted: the probe's AST serializer (what counts as 'the same tree'), vf/reftok.py for comment extraction.",
         design="DESIGN.md section 4, C05"),
+    "C06": dict(
+        engine="probe",
+        technique="runtime monitor: reference-model oracle (shape-conformance model written from the statement) on build success/failure of generated (constraint, value) files; metamorphic agreement of inline / named / let-bound spellings",
+        text="Constraints from the whole grammar of the quantifier are paired with literal and computed values incl. every range boundary and float neighbour; the file `let v :: C = V;` is built by checker + VM (and by the CLI for a sample) and must build exactly when the model says the value conforms; the same constraint written inline, behind `constraint` and behind a let-bound exemplar must give the same verdict.",
+        note="Trusted: conform() in vf/props/c06.py as the literal reading of the statement. NULL gives no verdict; recursive constraints are outside the quantifier.",
+        design="DESIGN.md section 4, C06"),
     "C07": dict(
         engine="probe",
         technique="runtime monitor: differential between two paths through the real code (eval_string without the checker vs build of the same text as a file with the checker)",
